@@ -479,5 +479,7 @@ class ExprMixin(ExecBase):
             v = self.eval(n.value)
             if v.ty.kind == 'obj' and v.py and v.py[0] == 'task':
                 return self.spec.builtins['Task#await'](self, v)
+            if v.ty.kind == 'obj' and v.py and v.py[0] == 'future':
+                return self.spec.builtins['Future#await'](self, v)
             return self.await_value(v)
         return self.eval_call(n.value, awaited=True)
